@@ -578,6 +578,9 @@ def run_property(prop, tier, seed, only=None, workers=16, scale=1.0):
             s.name, a["evaluations"], len(a["hashes"]), a["skipped"], a["excluded"],
             "TRUNCATED " if a["truncated"] else "", a["wall_s"]))
         if os.environ.get("VERIF_SHOW_METRICS"):
+            os.makedirs(os.path.join(VERIF, ".work"), exist_ok=True)
+            with open(os.path.join(VERIF, ".work", "metrics_%s_%s.json" % (prop, s.name)), "w") as fh:
+                json.dump({mk: {"value": mv[0], "case": mv[1]} for mk, mv in a["metrics"].items()}, fh)
             for mk, mv in sorted(a["metrics"].items()):
                 print("      max %-28s %.3g   at %s" % (mk, mv[0], canon(mv[1])[:400]))
     for k, v in sorted(known_hits_total.items()):
